@@ -1557,3 +1557,156 @@ func ruleKeySiblings(r *Run) {
 		o.OK("%d implementer(s): %d hashing, %d fixed (empty set) returning xxhash of no input", len(impls), nHash, nFixed)
 	}
 }
+
+// ruleKeywordLookupExact (PV-API): keywords are recognised by their exact spelling. The lexer
+// looks the scanned text itself up in the keyword table; a transformed copy (case folding,
+// trimming) would turn valid label names such as `By`, `ON` or `Json` into keywords, and a
+// container label with such a name could no longer be written in a selector.
+func ruleKeywordLookupExact(r *Run) {
+	p := r.P
+	o := r.Ob("PV-API", "lexer keyword lookup", "the keyword table is consulted with the scanned identifier itself, not with a case-folded or otherwise rewritten copy: only the exact lower-case spellings are keywords")
+	sp := p.SSAPkg(lexerPkg)
+	if sp == nil {
+		o.Fail("-", "lexer package not loaded")
+		return
+	}
+	n := 0
+	bad := false
+	for _, fn := range p.SrcFuncs() {
+		if pkgOfFunc(fn) != sp {
+			continue
+		}
+		grp := funcGroup(fn)
+		allInstrs(fn, func(in ssa.Instruction) {
+			lk, ok := in.(*ssa.Lookup)
+			if !ok {
+				return
+			}
+			u, ok := lk.X.(*ssa.UnOp)
+			if !ok {
+				return
+			}
+			g, ok := u.X.(*ssa.Global)
+			if !ok || globalName(g) != "tokens" {
+				return
+			}
+			n++
+			// the scanned text, possibly extended by what the scanner yields next (two-character
+			// operators): parameters, scanner output and concatenations of those - never the
+			// result of a string transformation
+			var exact func(v ssa.Value, depth int) bool
+			exact = func(v ssa.Value, depth int) bool {
+				if depth > 8 {
+					return false
+				}
+				v = originValueIn(stripTypeOnly(v), grp)
+				switch x := v.(type) {
+				case *ssa.Parameter:
+					return true
+				case *ssa.Convert:
+					return exact(x.X, depth+1)
+				case *ssa.BinOp:
+					return x.Op == token.ADD && exact(x.X, depth+1) && exact(x.Y, depth+1)
+				case *ssa.Call:
+					if callee := staticCallee(x); callee != nil && callee.Pkg != nil && callee.Pkg.Pkg.Path() == "text/scanner" {
+						switch callee.Name() {
+						case "TokenText", "Peek", "Next", "Scan":
+							return true
+						}
+					}
+				}
+				return false
+			}
+			if exact(lk.Index, 0) {
+				return
+			}
+			bad = true
+			o.Fail(r.pos(lk.Pos()), "%s looks %s up in the keyword table, not the scanned text itself", shortFuncName(fn), describe(lk.Index, 1))
+		})
+	}
+	if n == 0 {
+		o.Fail("-", "no lookup in the keyword table found")
+		return
+	}
+	if !bad {
+		o.OK("%d lookup(s), each with the scanned text", n)
+	}
+}
+
+// rulePFDeferNil (PF-NILCLOSE): a cleanup that is deferred for a value obtained together with
+// an error is registered only where the error is known to be nil. Registered earlier, the
+// cleanup runs on the failure path too and calls a method on the nil value (a nil interface
+// panics).
+func rulePFDeferNil(r *Run, rels []string) {
+	p := r.P
+	o := r.Ob("PF-NILCLOSE", "deferred cleanups", "a deferred cleanup taking a value that was returned together with an error is registered after the error was found nil: it never runs on a nil value")
+	inScope := map[string]bool{}
+	for _, rel := range rels {
+		inScope[modPath+"/"+rel] = true
+	}
+	n := 0
+	bad := false
+	for _, fn := range p.SrcFuncs() {
+		pk := pkgOfFunc(fn)
+		if pk == nil || !inScope[pk.Pkg.Path()] {
+			continue
+		}
+		allInstrs(fn, func(in ssa.Instruction) {
+			d, ok := in.(*ssa.Defer)
+			if !ok {
+				return
+			}
+			var vals []ssa.Value
+			vals = append(vals, d.Call.Args...)
+			if mc, ok := d.Call.Value.(*ssa.MakeClosure); ok {
+				vals = append(vals, mc.Bindings...)
+			}
+			if d.Call.IsInvoke() {
+				vals = append(vals, d.Call.Value)
+			}
+			for _, a := range vals {
+				src := unspill(stripTypeOnly(a))
+				c, idx, ok := extractOf(src)
+				if !ok || idx != 0 {
+					continue
+				}
+				res := c.Call.Signature().Results()
+				if res.Len() < 2 || !isErrorType(res.At(res.Len()-1).Type()) {
+					continue
+				}
+				// only values that can be nil and are used through methods
+				switch a.Type().Underlying().(type) {
+				case *types.Interface, *types.Pointer:
+				default:
+					continue
+				}
+				var errv ssa.Value
+				for _, ref := range *c.Referrers() {
+					if e, ok := ref.(*ssa.Extract); ok && e.Index == res.Len()-1 {
+						errv = e
+					}
+				}
+				n++
+				checked := false
+				for _, f := range factsAt(d.Block()) {
+					if x, trueWhenNonNil, ok := nilCheck(f.Cond); ok {
+						if x == errv && f.Truth != trueWhenNonNil {
+							checked = true
+						}
+						// or the value itself is known non-nil
+						if (x == src || x == a) && f.Truth == trueWhenNonNil {
+							checked = true
+						}
+					}
+				}
+				if !checked {
+					bad = true
+					o.Fail(r.pos(d.Pos()), "%s defers a cleanup of %s before the error returned with it was checked: on the failure path the cleanup runs on a nil value", shortFuncName(fn), describe(src, 1))
+				}
+			}
+		})
+	}
+	if !bad {
+		o.OK("%d deferred cleanup(s) of values returned with an error, each registered under err == nil", n)
+	}
+}
